@@ -45,7 +45,9 @@ def nontrivial(op, result):
 
 
 def weight(op):
-    return 256 if op.startswith("irs ") else 1
+    if op.startswith("irs "):
+        return 1 << BITS[op.split()[1]][1]
+    return 1
 
 
 def refine(op):
@@ -93,6 +95,18 @@ def batches(rng, tier):
     ops = [f"irc {ty} {n}" for ty in T8 for n in range(lo_hi(ty)[0], lo_hi(ty)[1] + 1)]
     yield Batch("int-range-count-8bit", ops, exhaustive=True, note="make_int_range_count(n) for every n of the 8-bit types")
 
+    # 1b. thorough: 16-bit types, every end value for lattice and random begin values
+    if thorough:
+        r = rng.fork("irs16")
+        ops = []
+        for ty in ("i16", "u16"):
+            lo, hi = lo_hi(ty)
+            bs = set(lattice(ty))
+            while len(bs) < 48:
+                bs.add(r.range(lo, hi))
+            ops += [f"irs {ty} {b}" for b in sorted(bs)]
+        yield Batch("int-range-16bit-all-ends", ops, note="16-bit types: all 65536 end values for 48 begin values each (lattice + random)")
+
     # 2. wider types: boundary lattice pairs + near-boundary random pairs + counts
     r = rng.fork("wide")
     ops = []
@@ -104,7 +118,7 @@ def batches(rng, tier):
                 ops.append(f"ir {ty} {b} {e}")
         for n in lat:
             ops.append(f"irc {ty} {n}")
-        for _ in range(400 if thorough else 60):
+        for _ in range(3000 if thorough else 300):
             k = r.below(4)
             if k == 0:      # short range ending at the maximum
                 e = hi - r.below(3)
@@ -150,6 +164,14 @@ def batches(rng, tier):
                     ops.append(f"cyc {L} {f} {s} {start} {k}")
     yield Batch("cyclic-advance-all", ops, exhaustive=True,
                 note="boundary lengths 1..6 (whole container and embedded sub-range), every start, every k in [-20,20]: advance vs |k| single steps")
+    if thorough:
+        ops = []
+        for ln in range(1, 13):
+            for f in (0, 2):
+                for start in range(f, f + ln):
+                    for k in range(-60, 61):
+                        ops.append(f"cyc {f + ln + 1} {f} {f + ln} {start} {k}")
+        yield Batch("cyclic-advance-all-wider", ops, exhaustive=True, note="boundary lengths 1..12, every start, every k in [-60,60]")
     r = rng.fork("cycbig")
     ops = []
     for _ in range(3000 if thorough else 500):
@@ -166,7 +188,7 @@ def batches(rng, tier):
     # 6. cyclic walks
     r = rng.fork("cycw")
     ops = []
-    for _ in range(4000 if thorough else 700):
+    for _ in range(8000 if thorough else 1500):
         kind = r.choice(["v", "l"])
         ln = r.range(1, 7)
         f = r.below(3)
@@ -188,7 +210,7 @@ def batches(rng, tier):
     dists = list(range(0, 13 if thorough else 7))
     for ty, big in (("i32", 2 ** 31 - 1 - 20000), ("i64", 2 ** 63 - 1 - 20000)):
         origins = [(0, 0), (5, 5), (-3, 7), (1, -1), (big, big), (-big, -big), (big, -big), (0, -big), (-big, 0)]
-        for _ in range(12 if thorough else 4):
+        for _ in range(40 if thorough else 4):
             origins.append((r.range(-10 ** 6, 10 ** 6), r.range(-10 ** 6, 10 ** 6)))
             origins.append((r.range(-big, big), r.range(-big, big)))
         for (x, y) in origins:
